@@ -1,6 +1,7 @@
 package props
 
 import (
+	"go/types"
 	"fmt"
 
 	"lwverif/internal/absint"
@@ -46,7 +47,7 @@ func checkC04(c *Ctx) {
 			phy = symDeep(in, "", PT, v, aspec{}, &dom)
 			key = in.Sym("key", in.NamedType("", "AES128Key"), false)
 			in.SetLive(dom)
-			res = in.CallMethod(&absint.Cell{V: phy}, PT, "calculateUplinkJoinMIC", key)
+			res = callMICCalc(in, phy, PT, "calculateUplinkJoinMIC", "SetUplinkJoinMIC", key)
 		})
 		if err != nil {
 			r.Unknown("R1.uplink-mic", cfg, "", "inside the interpreter's subset", err.Error())
@@ -84,7 +85,7 @@ func checkC04(c *Ctx) {
 				var res []absint.Value
 				err := in.Try(func() {
 					in.SetLive(dom)
-					res = in.CallMethod(&absint.Cell{V: phy}, PT, "calculateDownlinkJoinMIC", jt, joinEUI, devNonce, key)
+					res = callMICCalc(in, phy, PT, "calculateDownlinkJoinMIC", "SetDownlinkJoinMIC", jt, joinEUI, devNonce, key)
 				})
 				if err != nil {
 					return err
@@ -241,4 +242,30 @@ func c04MIC(c *Ctx, in *absint.Interp, rule, cfg string, dom absint.Node, phy, k
 	}
 	want := in.OpaqueBytes("CMAC", [][]absint.Value{arrayBytes(key, false), msg}, 16, "")
 	compareBytes(c, in, rule, cfg+"/mic", "", arrayBytes(res[0], false), vals(want[:4]...), dom, nil)
+}
+
+// callMICCalc: the MIC and the error of the unexported calculator when it takes exactly these arguments; otherwise
+// (its parameter list is not API: an options struct, another order) the same pair obtained through the exported setter,
+// whose signature is — the setter stores what the calculator returns, which is what the wrapper rules establish.
+func callMICCalc(in *absint.Interp, phy absint.Value, PT types.Type, calc, set string, args ...absint.Value) []absint.Value {
+	if obj, _, _ := types.LookupFieldOrMethod(types.NewPointer(PT), true, pkgOfType(PT), calc); obj != nil {
+		if fn, ok := obj.(*types.Func); ok && fn.Type().(*types.Signature).Params().Len() == len(args) {
+			return in.CallMethod(&absint.Cell{V: phy}, PT, calc, args...)
+		}
+	}
+	cp := absint.Copy(phy)
+	cell := &absint.Cell{V: cp}
+	r := in.CallMethod(cell, PT, set, args...)
+	var errV absint.Value = absint.NilVal{}
+	if len(r) > 0 {
+		errV = r[len(r)-1]
+	}
+	return []absint.Value{deepLeaf(cell.V, "MIC"), errV}
+}
+
+func pkgOfType(t types.Type) *types.Package {
+	if n, ok := t.(*types.Named); ok {
+		return n.Obj().Pkg()
+	}
+	return nil
 }
